@@ -1,7 +1,7 @@
 //! oracle self-tests run by setup.sh
 fn main() {
     let mut bad = 0;
-    for (n, r) in [("refhash", pv::refhash::selftest()), ("cbor", pv::cbor::selftest())] {
+    for (n, r) in [("refhash", pv::refhash::selftest()), ("cbor", pv::cbor::selftest()), ("specs", pv::specs::selfcheck())] {
         match r {
             Ok(()) => println!("selftest {n}: ok"),
             Err(e) => {
